@@ -124,7 +124,16 @@ def _single_binding(func, name):
                 if _is_name(t, name):
                     vals.append(n.value)
                 elif isinstance(t, (ast.Tuple, ast.List)) and any(_is_name(x, name) for x in ast.walk(t)):
-                    vals.append(None)
+                    # a, b = x, y  binds element-wise
+                    v = n.value
+                    if isinstance(v, (ast.Tuple, ast.List)) and len(v.elts) == len(t.elts) and not any(isinstance(x, ast.Starred) for x in list(t.elts) + list(v.elts)):
+                        for te, ve in zip(t.elts, v.elts):
+                            if _is_name(te, name):
+                                vals.append(ve)
+                            elif any(_is_name(x, name) for x in ast.walk(te)):
+                                vals.append(None)
+                    else:
+                        vals.append(None)
         elif isinstance(n, (ast.AugAssign, ast.AnnAssign)) and _is_name(n.target, name):
             vals.append(None if isinstance(n, ast.AugAssign) else n.value)
         elif isinstance(n, (ast.For, ast.comprehension)) and any(_is_name(x, name) for x in ast.walk(n.target)):
@@ -145,6 +154,76 @@ def _deref(func, e, depth=4):
         e = v
         depth -= 1
     return e
+
+
+def _origins(model, func, e, depth=2):
+    """where the value of expression e of func comes from: [(func, expr)] after copy propagation of single-assignment locals and,
+    for a never re-bound parameter of a function that is only called directly, the argument expression of every call site"""
+    e = _deref(func, e)
+    if depth and isinstance(e, ast.Name) and e.id in func.params() and not _stores(func, e.id):
+        edges = model.cg.callers(func.qname)
+        if edges and all(x.kind == DIRECT and x.src is not None and x.src is not func for x in edges):
+            out = []
+            for x in edges:
+                b = _bind(x.call, func.params())
+                if b is None or e.id not in b:
+                    return [(func, e)]
+                out += _origins(model, x.src, b[e.id], depth - 1)
+            return out
+    return [(func, e)]
+
+
+def _job_ids(model, func, name):
+    """canonical identity of a job variable: the (function, name) pairs it originates from"""
+    out = set()
+    for f2, e2 in _origins(model, func, ast.Name(id=name, ctx=ast.Load())):
+        out.add((f2.qname, e2.id if isinstance(e2, ast.Name) else norm(e2)))
+    return frozenset(out)
+
+
+class _Subst(ast.NodeTransformer):
+    def __init__(self, mapping):
+        self.mapping = mapping
+
+    def visit_Name(self, node):
+        if node.id in self.mapping and isinstance(node.ctx, ast.Load):
+            return self.mapping[node.id]
+        return node
+
+
+def _inline_helper(prog, call, func):
+    """call of a repository function (same module) whose body is a single `return <expr>`: the expression with the
+    parameters replaced by the arguments, else None"""
+    sym = prog.callee(call, func)
+    if not sym or sym.startswith(('local:', 'external:')):
+        return None
+    h = prog.func_of(sym)
+    if h is None or sym in prog.classes or h.module is not func.module or h is func:
+        return None
+    body = [x for x in h.node.body if not (isinstance(x, ast.Expr) and isinstance(x.value, ast.Constant))]
+    if len(body) != 1 or not isinstance(body[0], ast.Return) or body[0].value is None:
+        return None
+    params = h.params()
+    args = list(call.args)
+    mapping = {}
+    if params and params[0] in ('self', 'cls') and h.cls is not None and not h.is_staticmethod():
+        recv = call.func.value if isinstance(call.func, ast.Attribute) else None
+        if not _is_name(recv, 'self'):
+            return None
+        params = params[1:]
+    b = _bind(call, params)
+    if b is None or any(isinstance(x, (ast.Lambda, ast.ListComp, ast.GeneratorExp, ast.SetComp, ast.DictComp)) for x in ast.walk(body[0].value)):
+        return None
+    a = h.node.args
+    pos = [x.arg for x in a.posonlyargs + a.args]
+    for p, d in zip(pos[len(pos) - len(a.defaults):], a.defaults):
+        b.setdefault(p, d)
+    if any(p not in b for p in params):
+        return None
+    import copy
+
+    expr = _Subst(b).visit(copy.deepcopy(body[0].value))
+    return ast.copy_location(ast.fix_missing_locations(expr), call)
 
 
 def _stores(func, name):
@@ -345,6 +424,14 @@ class Model:
             v = _single_binding(func, expr.id)
             if isinstance(v, ast.Call):
                 return self.make_role(v, func) or 'unknown'
+            if isinstance(v, ast.IfExp):
+                return self.msg_role(v, func)
+        if isinstance(expr, ast.IfExp):
+            a, b = self.msg_role(expr.body, func), self.msg_role(expr.orelse, func)
+            if a == b:
+                return a
+            if isinstance(a, str) and isinstance(b, str) and 'unknown' not in (a, b):
+                return ('either', a, b)
         return 'unknown'
 
     def is_send(self, call, func):
@@ -379,8 +466,21 @@ class Model:
                     continue
                 role = self.msg_role(m, f)
                 self.sends.append((f, c, role))
-                if isinstance(role, tuple) and f.parent is None:
+                if isinstance(role, tuple) and role[0] == 'param' and f.parent is None:
                     self.send_methods[f.qname] = (f, role[1])
+
+    def gsym(self, e, func):
+        """resolved symbol of a Name/Attribute; a local bound once to a farm container stands for that container"""
+        if not isinstance(e, (ast.Name, ast.Attribute)):
+            return None
+        s = self.prog.resolve_in(e, func) if func is not None else None
+        if s and s.startswith('local:') and isinstance(e, ast.Name):
+            v = _single_binding(func, e.id)
+            if isinstance(v, (ast.Name, ast.Attribute)):
+                s2 = self.prog.resolve_in(v, func)
+                if s2 in self.farm_containers():
+                    return s2
+        return s
 
     # ------------------------------------------------------ references
     def refs(self, gq):
@@ -401,6 +501,23 @@ class Model:
                     r = Ref(m, f, n)
                     self._classify(r)
                     out.append(r)
+                    # alias = <list>: the uses of a once-bound local alias are uses of the list
+                    pa = self.parent(m, n)
+                    if (
+                        r.op == 'escape'
+                        and f is not None
+                        and isinstance(pa, ast.Assign)
+                        and pa.value is n
+                        and len(pa.targets) == 1
+                        and isinstance(pa.targets[0], ast.Name)
+                        and _single_binding(f, pa.targets[0].id) is n
+                    ):
+                        r.op, r.method = 'read', 'alias'
+                        for x in f.own_nodes():
+                            if isinstance(x, ast.Name) and x.id == pa.targets[0].id and isinstance(x.ctx, ast.Load):
+                                r2 = Ref(m, f, x)
+                                self._classify(r2)
+                                out.append(r2)
         out.sort(key=lambda r: (r.module.name, _pos(r.node)))
         self._refs[gq] = out
         return out
@@ -457,6 +574,8 @@ class Model:
                 v = getattr(gp, 'value', None)
                 r.elems = [v] if v is not None else []
                 r.seq = isinstance(p.slice, ast.Slice)
+                if isinstance(p.slice, ast.Slice) and p.slice.lower is None and p.slice.upper is None and p.slice.step is None and isinstance(gp, ast.Assign):
+                    r.method = 'replace-all'  # L[:] = X replaces the whole content in place
             return
         if isinstance(p, ast.Call) and cur in p.args and isinstance(p.func, ast.Name) and p.func.id in PURE:
             if (self.prog.resolve_expr(p.func, m, r.func) or '').startswith('external:'):
@@ -484,7 +603,10 @@ class Model:
         return {r.func.qname for r in self.refs(gq) if r.op == 'grow' and r.func is not None}
 
     def farm_containers(self):
-        out = []
+        c = self.__dict__.get('_fc')
+        if c is not None:
+            return c
+        out = self.__dict__['_fc'] = []
         for name, vals in sorted(self.farm.globals.items()):
             if any(isinstance(v, (ast.List, ast.Dict, ast.Set)) for v in vals):
                 out.append(FARM + '.' + name)
@@ -496,6 +618,14 @@ class Model:
         if fq not in c:
             reach = self.cg.reachable([fq], kinds={DIRECT})
             c[fq] = {g for g in self.farm_containers() if self.growers(g) & reach}
+        return c[fq]
+
+    def may_shrink(self, fq):
+        """farm containers a call to the repo function fq may shrink (transitively through direct calls)"""
+        c = self.__dict__.setdefault('_ms', {})
+        if fq not in c:
+            reach = self.cg.reachable([fq], kinds={DIRECT})
+            c[fq] = {g for g in self.farm_containers() if {r.func.qname for r in self.refs(g) if r.op == 'shrink' and r.func is not None} & reach}
         return c[fq]
 
     def prov(self, func, source):
@@ -603,7 +733,7 @@ class Prov:
             self._grow(n.target, kseq(self.kind(n.value)))
         elif isinstance(n, ast.Call) and isinstance(n.func, ast.Attribute) and n.func.attr in GROW | {'setdefault'}:
             base = n.func.value
-            if isinstance(base, (ast.Name, ast.Attribute)) and self.prog.resolve_in(base, self.f) == self.source:
+            if isinstance(base, (ast.Name, ast.Attribute)) and self.model.gsym(base, self.f) == self.source:
                 return  # growth of the source itself is judged by the rule
             if n.func.attr == 'setdefault' and len(n.args) == 2:
                 self._grow(base, self.kind(n.args[1]), self.kind(n.args[0]))
@@ -658,7 +788,7 @@ class Prov:
         if e is None:
             return 'K'
         if isinstance(e, (ast.Name, ast.Attribute)):
-            if self.prog.resolve_in(e, self.f) == self.source:
+            if self.model.gsym(e, self.f) == self.source:
                 return 'W'
             if isinstance(e, ast.Name):
                 if e.id == 'self':
@@ -729,7 +859,7 @@ class Prov:
             and isinstance(e.func, ast.Attribute)
             and e.func.attr in ('pop', 'popleft')
             and isinstance(e.func.value, (ast.Name, ast.Attribute))
-            and self.prog.resolve_in(e.func.value, self.f) == self.source
+            and self.model.gsym(e.func.value, self.f) == self.source
         )
 
 
@@ -772,6 +902,9 @@ class FactFlow(Flow):
         self.at = {}  # id(call) -> set of states in which the call executes
         self.rets = []  # (Return node, state)
         self.msg_params = set()  # parameters whose .revision was compared with the pipeline revision
+        self.sent = []  # (send call, role, state before)
+        self.vals = {}  # position -> branch expression a local was bound to by a conditional expression
+        self._inl = {}  # id(call) -> inlined single-return helper expression (or None)
 
     # ---- atoms ------------------------------------------------------
     def is_local(self, name):
@@ -797,8 +930,18 @@ class FactFlow(Flow):
     def active_call(self, e):
         return isinstance(e, ast.Call) and self.prog.callee(e, self.f) == ACTIVE
 
-    def has_atom(self, e):
+    def inline(self, call):
+        k = id(call)
+        if k not in self._inl:
+            self._inl[k] = _inline_helper(self.prog, call, self.f) if len(self._inl) < 200 else None
+        return self._inl[k]
+
+    def has_atom(self, e, depth=2):
         for n in ast.walk(e):
+            if depth and isinstance(n, ast.Call):
+                sub = self.inline(n)
+                if sub is not None and self.has_atom(sub, depth - 1):
+                    return True
             if isinstance(n, ast.Compare) and self.rev_atom(n) is not None:
                 return True
             if isinstance(n, ast.Call) and (self.active_call(n) or self.extra_atom(n)):
@@ -809,6 +952,10 @@ class FactFlow(Flow):
 
     def extra_atom(self, e):
         return False
+
+    def interesting(self, e):
+        """the (inlined) expression is worth deciding atom by atom"""
+        return self.has_atom(e)
 
     def test(self, e, st):
         """rule specific atoms -> (true states, false states) or None"""
@@ -826,6 +973,11 @@ class FactFlow(Flow):
         r = self.test(e, st)
         if r is not None:
             return r
+        if isinstance(e, ast.Call):
+            # single-expression helper used as a condition: decide on the helper's expression with the arguments substituted
+            sub = self.inline(e)
+            if sub is not None and self.interesting(sub):
+                return self.cond(sub, {st})
         return (st,), (st,)
 
     # ---- statements -------------------------------------------------
@@ -837,6 +989,20 @@ class FactFlow(Flow):
         return st
 
     def _s_Assign(self, s, states):
+        if len(s.targets) == 1 and isinstance(s.targets[0], ast.Name) and self.is_local(s.targets[0].id) and isinstance(s.value, ast.IfExp):
+            # x = A if c else B  is interpreted as  if c: x = A  else: x = B
+            name = s.targets[0].id
+            t, f = self.cond(s.value.test, states)
+            out = Out()
+            for sts, branch in ((t, s.value.body), (f, s.value.orelse)):
+                if not sts:
+                    continue
+                syn = ast.copy_location(ast.Assign(targets=s.targets, value=branch), s)
+                self.vals[_pos(branch)] = branch
+                o = self._s_Assign(syn, sts)
+                out.normal |= {x if isinstance(branch, ast.IfExp) else fput(x, ('val', name), _pos(branch)) for x in o.normal}
+            self._cap(out.normal)
+            return out
         if len(s.targets) == 1 and isinstance(s.targets[0], ast.Name) and self.is_local(s.targets[0].id) and self.has_atom(s.value):
             name = s.targets[0].id
             t, f = self.cond(s.value, states)
@@ -877,8 +1043,11 @@ class FactFlow(Flow):
             if b is not None and len(b) >= 2:
                 msg, to = (b[p] for p in self.m.send.params()[:2])
                 if _is_name(to, 'self'):
-                    role = self.m.msg_role(msg, self.f)
-                    role = 'param' if isinstance(role, tuple) else role
+                    pos = fget(st, ('val', msg.id)) if isinstance(msg, ast.Name) else None
+                    role = self.m.msg_role(self.vals[pos] if pos in self.vals else msg, self.f)
+                    if isinstance(role, tuple):
+                        role = 'param' if role[0] == 'param' else 'unknown'
+                    self.sent.append((call, role, st))
                     st = fput(st, 'ev:' + role, True)
         elif self.m.is_close(call, self.f):
             st = fput(st, 'ev:close', True)
@@ -886,6 +1055,16 @@ class FactFlow(Flow):
 
     def call(self, call, st):
         return (st,)
+
+
+def _roles(role):
+    if isinstance(role, tuple):
+        return role[1:] if role[0] == 'either' else ()
+    return (role,)
+
+
+def _has_role(role, name):
+    return name in _roles(role)
 
 
 def exit_states(flow, func, init=frozenset()):
@@ -1035,6 +1214,7 @@ def _rule1(model, rep):
             if all(k in ('W', 'E') for k in kinds):
                 # re-insertion of hands that were in the list: must not duplicate -> list cleared first, or element popped
                 popped = (not ref.seq) and all(pv.popped_from_source(e) for e in ref.elems)
+                popped = popped or ref.method == 'replace-all'  # the old content is dropped by the same statement
 
                 class Clr(Flow):
                     def on_call(s, call, st):  # noqa: N805
@@ -1044,7 +1224,7 @@ def _rule1(model, rep):
                             isinstance(call.func, ast.Attribute)
                             and call.func.attr == 'clear'
                             and isinstance(call.func.value, (ast.Name, ast.Attribute))
-                            and prog.resolve_in(call.func.value, f) == WORKERS
+                            and model.gsym(call.func.value, f) == WORKERS
                         ):
                             return ('cleared',)
                         return (st,)
@@ -1156,13 +1336,14 @@ def _rule1(model, rep):
                 )
         # status poll: the proceed answer only with equal revision and an active pipeline, abort otherwise
         for f, call, role in model.sends:
-            if role != 'proceed':
+            if not _has_role(role, 'proceed'):
                 continue
             r.instance()
             rep.analysed(f)
             fl = FactFlow(model, f)
             normal, _exc = exit_states(fl, f)
-            sts = fl.at.get(id(call), set())
+            # states in which this send writes the proceed message (path-sensitive when it was chosen by a conditional expression)
+            sts = {st for c, ro, st in fl.sent if c is call and ro == 'proceed'}
             ok = bool(sts) and all(fget(st, 'rev') is True and fget(st, 'active') is True for st in sts)
             r.check(
                 ok,
@@ -1183,7 +1364,7 @@ def _rule1(model, rep):
                 f'{f.qname}: a status poll with a differing revision or an inactive pipeline is not answered with the abort message on every path',
             )
         # the abort / proceed answers are what the worker side tests: response with success False / True
-        roles = {role for _f, _c, role in model.sends}
+        roles = {x for _f, _c, role in model.sends for x in _roles(role)}
         r.check(
             'abort' in roles and 'proceed' in roles,
             f'{HAND}:answer-messages',
@@ -1261,7 +1442,7 @@ class _Member(FactFlow):
         self.unknown = []
 
     def _is_list(self, e):
-        return isinstance(e, (ast.Name, ast.Attribute)) and self.prog.resolve_in(e, self.f) == WORKERS
+        return isinstance(e, (ast.Name, ast.Attribute)) and self.m.gsym(e, self.f) == WORKERS
 
     def _count_self(self, e):
         return (
@@ -1306,6 +1487,39 @@ class _Member(FactFlow):
             return None
         t, f = fsplit(st, 'in')
         return (t, f) if a else (f, t)
+
+    def _excludes_self(self, v):
+        """[w for w in <list> if w is not self] / filter(lambda w: w is not self, <list>) (possibly wrapped in list())"""
+        while isinstance(v, ast.Call) and isinstance(v.func, ast.Name) and v.func.id in SEQ_COPY and len(v.args) == 1:
+            v = v.args[0]
+        var = conds = it = None
+        if isinstance(v, (ast.ListComp, ast.GeneratorExp)) and len(v.generators) == 1 and isinstance(v.generators[0].target, ast.Name):
+            g = v.generators[0]
+            if _is_name(v.elt, g.target.id):
+                var, conds, it = g.target.id, list(g.ifs), g.iter
+        elif isinstance(v, ast.Call) and _is_name(v.func, 'filter') and len(v.args) == 2 and isinstance(v.args[0], ast.Lambda) and v.args[0].args.args:
+            var, conds, it = v.args[0].args.args[0].arg, [v.args[0].body], v.args[1]
+        if var is None or not self._is_list(it):
+            return False
+        for c in [x for y in conds for x in _conjuncts(y)]:
+            if isinstance(c, ast.Compare) and len(c.ops) == 1 and isinstance(c.ops[0], (ast.IsNot, ast.NotEq)):
+                a, b = c.left, c.comparators[0]
+                if (_is_name(a, var) and _is_name(b, 'self')) or (_is_name(a, 'self') and _is_name(b, var)):
+                    return True
+        return False
+
+    def on_stmt(self, s, st):
+        if isinstance(s, (ast.Assign, ast.AugAssign)):
+            for t in s.targets if isinstance(s, ast.Assign) else [s.target]:
+                base = t.value if isinstance(t, ast.Subscript) else t
+                if self._is_list(base):
+                    whole = isinstance(t, ast.Subscript) and isinstance(t.slice, ast.Slice) and t.slice.lower is None and t.slice.upper is None
+                    if isinstance(s, ast.Assign) and whole and self._excludes_self(s.value):
+                        st = fput(st, 'in', False)
+                    else:
+                        self.unknown.append(s)
+                        st = fput(st, 'in', None)
+        return super().on_stmt(s, st)
 
     def call(self, call, st):
         fn = call.func
@@ -1422,7 +1636,10 @@ def _rule2(model, rep):
         for f, call, role in model.sends:
             r.instance()
             rep.analysed(f)
-            if isinstance(role, tuple):
+            if isinstance(role, tuple) and role[0] == 'either':
+                ok = all(x in allowed for x in role[1:])
+                det = ' or '.join(role[1:]) + ' message'
+            elif isinstance(role, tuple):
                 ok = f.qname in model.send_methods
                 det = f'parameter {role[1]} of the hand-over method'
             else:
@@ -1433,7 +1650,7 @@ def _rule2(model, rep):
                 f'{f.qname}:{norm(call)[:90]}',
                 where(f, call),
                 det,
-                f'{norm(call)[:80]} writes a message of kind "{role if not isinstance(role, tuple) else "parameter"}" to the worker outside the hand-over method: '
+                f'{norm(call)[:80]} writes a message of kind "{role if not isinstance(role, tuple) else "/".join(role[1:]) if role[0] == "either" else "parameter"}" to the worker outside the hand-over method: '
                 'it is not covered by the eligibility and activity gates',
                 nontrivial=False,
             )
@@ -1488,7 +1705,7 @@ class GateFlow(FactFlow):
     # ---- helpers
     def glob(self, e):
         if isinstance(e, (ast.Name, ast.Attribute)):
-            s = self.prog.resolve_in(e, self.f)
+            s = self.m.gsym(e, self.f)
             if s and s.startswith(FARM + '.') and s in self.m.farm_containers():
                 return s
         return None
@@ -1533,6 +1750,9 @@ class GateFlow(FactFlow):
         return False
 
     # ---- atoms
+    def interesting(self, e):
+        return self.has_atom(e) or any(self.glob(n) for n in ast.walk(e) if isinstance(n, (ast.Name, ast.Attribute)))
+
     def extra_atom(self, e):
         if isinstance(e, ast.Call):
             sym = self.prog.callee(e, self.f)
@@ -1556,16 +1776,22 @@ class GateFlow(FactFlow):
                 t = () if gs and all(g and self.is_empty(g, st) for g in gs) else (st,)
                 return t, (f,)
         g = self.len_of(e)
-        if g is not None:
-            t = () if fget(st, ('empty', g)) else (st,)
-            return t, (fput(st, ('empty', g), True),)
-        if isinstance(e, ast.Compare) and len(e.ops) == 1 and _const(e.comparators[0], 0):
+        if g is None and isinstance(e, ast.Compare) and len(e.ops) == 1 and _const(e.comparators[0], 0):
             g = self.len_of(e.left)
             if g is not None and isinstance(e.ops[0], (ast.Gt, ast.NotEq, ast.Eq)):
-                t = () if fget(st, ('empty', g)) else (st,)
-                f = (fput(st, ('empty', g), True),)
+                t, f = self._truthy(g, st)
                 return (f, t) if isinstance(e.ops[0], ast.Eq) else (t, f)
+            return None
+        if g is not None:
+            return self._truthy(g, st)
         return None
+
+    def _truthy(self, g, st):
+        """truthiness of the farm container g: ('empty', g) is True (known empty), False (known non-empty) or unknown"""
+        cur = fget(st, ('empty', g))
+        t = () if cur is True else (fput(st, ('empty', g), False),)
+        f = () if cur is False else (fput(st, ('empty', g), True),)
+        return t, f
 
     # ---- effects
     def call(self, call, st):
@@ -1582,6 +1808,9 @@ class GateFlow(FactFlow):
                         st = fput(st, ('empty', x), None)
                     return (st,)
             if g is not None:
+                if fn.attr in SHRINK and fn.attr != 'clear':
+                    # an element leaves: a list known non-empty is of unknown size afterwards, an empty one stays empty
+                    return (st if fget(st, ('empty', g)) is True else fput(st, ('empty', g), None),)
                 if fn.attr == 'clear':
                     return (fput(st, ('empty', g), True),)
                 if fn.attr in GROW_SEQ and len(call.args) == 1:
@@ -1590,7 +1819,7 @@ class GateFlow(FactFlow):
                         return (st,)
                     return (fput(st, ('empty', g), None),)
                 if fn.attr in GROW:
-                    return (fput(st, ('empty', g), None),)
+                    return (fput(st, ('empty', g), False if fn.attr not in GROW_SEQ else None),)
                 return (st,)
         # calls into the repository (and callbacks handed over) may grow farm containers
         tgts = [sym] if sym else []
@@ -1602,7 +1831,7 @@ class GateFlow(FactFlow):
         for s in tgts:
             fo = self.prog.func_of(s) if not s.startswith(('local:', 'external:')) else None
             if fo is not None:
-                for g in self.m.may_grow(fo.qname):
+                for g in self.m.may_grow(fo.qname) | self.m.may_shrink(fo.qname):
                     st = fput(st, ('empty', g), None)
         return (st,)
 
@@ -1610,6 +1839,14 @@ class GateFlow(FactFlow):
         if self.iter_empty(node.iter, st):
             return ()
         return super().on_for(node, st)
+
+    def on_stmt(self, s, st):
+        if isinstance(s, (ast.Assign, ast.AugAssign, ast.AnnAssign)):
+            for t in s.targets if isinstance(s, ast.Assign) else [s.target]:
+                g = self.glob(t.value if isinstance(t, ast.Subscript) else t)
+                if g is not None:
+                    st = fput(st, ('empty', g), None)
+        return super().on_stmt(s, st)
 
 
 _KEEP = ('active', 'fired')
@@ -1678,6 +1915,46 @@ class _Notify(FactFlow):
                 st = fput(st, ('b', name), fget(st, 'active'))
                 st = fput(st, 'active', None)
         return st
+
+
+def _kept_loop(model, f, acc, notify_names):
+    """explicit-loop form of the filter: the accumulator `acc` starts empty and is only grown by acc.append(x) with x the variable
+    of a loop over some iterable, in states where x.notify(...) was tested true -> (x, [notify call], iterable) else None"""
+    init = _single_binding(f, acc)
+    if not ((isinstance(init, ast.List) and not init.elts) or (isinstance(init, ast.Call) and _is_name(init.func, 'list') and not init.args)):
+        return None
+    found = {}
+
+    class L(Flow):
+        def on_for(s, node, st):  # noqa: N805
+            return ((node.target.id, None, id(node)),) if isinstance(node.target, ast.Name) else (st,)
+
+        def on_for_done(s, node, st):  # noqa: N805
+            return ((None, None, None),)
+
+        def on_test(s, e, st):  # noqa: N805
+            if isinstance(e, ast.Call) and isinstance(e.func, ast.Attribute) and e.func.attr in notify_names and _is_name(e.func.value, st[0]):
+                found.setdefault('ncall', e)
+                return ((st[0], True, st[2]),), ((st[0], False, st[2]),)
+            return (st,), (st,)
+
+        def on_call(s, call, st):  # noqa: N805
+            fn = call.func
+            if isinstance(fn, ast.Attribute) and _is_name(fn.value, acc):
+                if fn.attr == 'append' and len(call.args) == 1 and _is_name(call.args[0], st[0]) and st[1] is True:
+                    found.setdefault('loops', set()).add(st[2])
+                elif fn.attr in GROW | SHRINK:
+                    found['bad'] = True
+            return (st,)
+
+    L().run(f.node, (None, None, None))
+    if found.get('bad') or len(found.get('loops', ())) != 1 or 'ncall' not in found:
+        return None
+    lid = next(iter(found['loops']))
+    for n in f.own_nodes():
+        if isinstance(n, ast.For) and id(n) == lid:
+            return n.target.id, [found['ncall']], n.iter
+    return None
 
 
 def _dot_edges(model):
@@ -1752,7 +2029,7 @@ def _rule3(model, rep):
             r.ok(f'{q}:true-implies-active', model._pred[q][1], where(prog.funcs[q]))
         # (c) notify: keep false => abort + close; wait only when kept; keep defaults to the live activity
         notifies = {}
-        for fq, call, role in [(f, c, ro) for f, c, ro in model.sends if ro == 'wait']:
+        for fq, call, role in [(f, c, ro) for f, c, ro in model.sends if _has_role(ro, 'wait')]:
             g = fq
             while g.parent is not None:
                 g = g.parent
@@ -1838,6 +2115,11 @@ def _rule3(model, rep):
                 g = src.generators[0]
                 if isinstance(g.target, ast.Name) and _is_name(src.elt, g.target.id):
                     var, pred, it = g.target.id, list(g.ifs), g.iter
+            if var is None and isinstance(src, (ast.List, ast.Call)) and ref.elems and isinstance(ref.elems[0], ast.Name):
+                # kept = []; for w in <idle list>: if w.notify(keep): kept.append(w)
+                loop = _kept_loop(model, f, ref.elems[0].id, notify_names)
+                if loop is not None:
+                    var, pred, it = loop
             conj = []
             for p in pred or []:
                 conj += p.values if isinstance(p, ast.BoolOp) and isinstance(p.op, ast.And) else [p]
@@ -1846,7 +2128,7 @@ def _rule3(model, rep):
                 for c in conj
                 if isinstance(c, ast.Call) and isinstance(c.func, ast.Attribute) and c.func.attr in notify_names and _is_name(c.func.value, var)
             ]
-            whole = it is not None and isinstance(it, (ast.Name, ast.Attribute)) and prog.resolve_in(it, f) == WORKERS
+            whole = it is not None and isinstance(it, (ast.Name, ast.Attribute)) and model.gsym(it, f) == WORKERS
             r.check(
                 bool(ncall) and whole,
                 f'{f.qname}:kept-hands-only',
@@ -2020,6 +2302,19 @@ def _rule4(model, rep):
                     if g:
                         have.add(g)
                 how = f'{"while" if isinstance(guard, ast.While) else "if"} {norm(guard.test)[:50]}'
+            if not need <= have and f.parent is None:
+                # any other shape (while True + break, nested guards, early continue): each pop must execute only in states in
+                # which its list was tested non-empty since the last removal
+                gfl = gate_run(model, f)
+                proven = set()
+                for g, e in ((WORKERS, h.recv), (CLUSTER, h.task)):
+                    pc = _deref(f, e)
+                    sts = gfl.at.get(id(pc), set()) if isinstance(pc, ast.Call) else set()
+                    if sts and all(fget(st, ('empty', g)) is False for st in sts):
+                        proven.add(g)
+                if need <= have | proven:
+                    have |= proven
+                    how = 'each pop is reached only after its list was tested non-empty'
             r.check(
                 need <= have,
                 h.key() + ':bounded-by-both-lists',
@@ -2036,7 +2331,7 @@ def _rule4(model, rep):
                 def on_call(s, call, st):  # noqa: N805
                     fn = call.func
                     if isinstance(fn, ast.Attribute) and fn.attr in ('pop', 'popleft', 'remove', 'clear') and isinstance(fn.value, (ast.Name, ast.Attribute)):
-                        g = prog.resolve_in(fn.value, f)
+                        g = model.gsym(fn.value, f)
                         if g == WORKERS:
                             return ((min(st[0] + 1, 2), st[1]),)
                         if g == CLUSTER:
@@ -2056,7 +2351,7 @@ def _rule4(model, rep):
             )
         # who may shrink the task queue
         for ref in model.refs(CLUSTER):
-            if ref.op not in ('shrink', 'escape', 'unknown-method') and not (ref.op == 'grow' and ref.method in ('rebind', '__setitem__')):
+            if ref.op not in ('shrink', 'escape', 'unknown-method') and not (ref.op == 'grow' and ref.method in ('rebind', '__setitem__', 'replace-all')):
                 continue
             r.instance()
             if ref.func is not None:
@@ -2130,9 +2425,18 @@ class _Kind(FactFlow):
             if isinstance(y, ast.Attribute) and y.attr == 'name' and isinstance(y.value, ast.Attribute):
                 sym = self.prog.resolve_in(y.value, self.f) or ''
                 if sym.startswith(FACTORIES + '.') and sym.rsplit('.', 1)[1] in self.members:
-                    x2 = _deref(self.f, x)
-                    if isinstance(x2, ast.Attribute) and x2.attr == '__name__' and _job_get(_deref(self.f, x2.value), 'factory'):
-                        return sym.rsplit('.', 1)[1], isinstance(e.ops[0], ast.Eq), _job_get(_deref(self.f, x2.value), 'factory')[0]
+                    # the tested name may be a local of this function or (kind dispatch moved into a helper) a parameter
+                    # whose argument is such a local of the caller
+                    jobs = set()
+                    for f2, x2 in _origins(self.m, self.f, x):
+                        jg = None
+                        if isinstance(x2, ast.Attribute) and x2.attr == '__name__':
+                            jg = _job_get(_deref(f2, x2.value), 'factory')
+                        if jg is None:
+                            return None
+                        jobs |= _job_ids(self.m, f2, jg[0])
+                    if jobs:
+                        return sym.rsplit('.', 1)[1], isinstance(e.ops[0], ast.Eq), frozenset(jobs)
         return None
 
     def extra_atom(self, e):
@@ -2218,6 +2522,7 @@ def _rule5(model, rep):
             params = f.params()
             # ---- unit variables of the emission
             jid, rid, tgt, fac = fields.get('jobid'), fields.get('runid'), fields.get('target'), fields.get('factory')
+            jid = _deref(f, jid) if jid is not None else None
             jobvar = jid.value.id if isinstance(jid, ast.Attribute) and jid.attr == 'tag' and isinstance(jid.value, ast.Name) else None
             stable = lambda n: n is not None and (_stores(f, n) == 0 if n in params else _stores(f, n) == 1)  # noqa: E731
             r.check(
@@ -2273,7 +2578,7 @@ def _rule5(model, rep):
                     ):
                         base = fn.value
                         alts = [base.body, base.orelse] if isinstance(base, ast.IfExp) else [base]
-                        if all(isinstance(a, (ast.Name, ast.Attribute)) and (prog.resolve_in(a, f) or '') in model.farm_containers() for a in alts):
+                        if all(isinstance(a, (ast.Name, ast.Attribute)) and (model.gsym(a, f) or '') in model.farm_containers() for a in alts):
                             return (min(max(st, 0) + 1, 2),)
                     if call is mk:
                         return (0,)
@@ -2327,8 +2632,12 @@ def _rule5(model, rep):
                     job = a['job']
                     jn = job.id if isinstance(job, ast.Name) else None
                     kjobs = {fget(st, 'kjob') for st in sts}
-                    if jn is not None and kjobs != {jn}:
-                        r.fail(key + ':kind-of-this-job', where(g, node), f'the factory kind tested on this path is that of {sorted(str(x) for x in kjobs)}, not of the job {jn} the message is made for')
+                    if jn is not None and kjobs != {_job_ids(model, g, jn)}:
+                        r.fail(
+                            key + ':kind-of-this-job',
+                            where(g, node),
+                            f'the factory kind tested on this path is that of {sorted(sorted(x) if x else "?" for x in kjobs)}, not of the job {jn} the message is made for',
+                        )
                     # the kind test is about the same job
                     # target
                     t = a['tgt']
@@ -2355,15 +2664,23 @@ def _rule5(model, rep):
                     elif k == 'regress':
                         r_ok, r_det = _const(ri, 0), 'run id 0'
                     else:
-                        rv = _deref(g, ri)
-                        r_ok = False
-                        r_det = ''
-                        if isinstance(rv, ast.Call):
-                            fo = prog.func_of(prog.callee(rv, g) or '')
-                            if fo is not None and fo.qname in rid_fns and len(rv.args) == 1 and _is_name(rv.args[0], jn):
-                                r_ok, r_det = True, f'run id {fo.name}({jn})'
-                        elif isinstance(ri, ast.Name) and g.qname in rid_fns:
-                            r_ok, r_det = True, 'run id computed in place (R-C11-6)'
+                        r_ok, r_det = True, ''
+                        jid_here = _job_ids(model, g, jn) if jn else frozenset()
+                        for g2, rv in _origins(model, g, ri):
+                            one = False
+                            if isinstance(rv, ast.Call):
+                                fo = prog.func_of(prog.callee(rv, g2) or '')
+                                if (
+                                    fo is not None
+                                    and fo.qname in rid_fns
+                                    and len(rv.args) == 1
+                                    and isinstance(rv.args[0], ast.Name)
+                                    and _job_ids(model, g2, rv.args[0].id) == jid_here
+                                ):
+                                    one, r_det = True, f'run id {fo.name}({rv.args[0].id})'
+                            elif isinstance(rv, ast.Name) and g2.qname in rid_fns:
+                                one, r_det = True, 'run id computed in place (R-C11-6)'
+                            r_ok = r_ok and one
                     r.check(
                         t_ok and r_ok and (jn is not None or job is None),
                         key,
@@ -2454,7 +2771,7 @@ class _RunId(FactFlow):
 
     def __init__(self, model, func):
         super().__init__(model, func)
-        self.uses = []  # (node, var, state)
+        self.uses = []  # (node, 'stored' | 'fresh', state)
         self.bad_default = []
 
     def _none(self, e):
@@ -2495,12 +2812,26 @@ class _RunId(FactFlow):
     def call(self, call, st):
         for a in list(call.args) + [k.value for k in call.keywords]:
             if isinstance(a, ast.Name) and fget(st, ('src', a.id)):
-                self.uses.append((call, a.id, st))
+                self.uses.append((call, fget(st, ('src', a.id)), st))
         return (st,)
 
+    def _s_Return(self, s, states):
+        v = s.value
+        if isinstance(v, ast.IfExp):  # return A if c else B  ==  if c: return A  else: return B
+            t, f = self.cond(v.test, states)
+            out = Out()
+            for sts, br in ((t, v.body), (f, v.orelse)):
+                if sts:
+                    out.absorb(self._s_Return(ast.copy_location(ast.Return(value=br), s), sts))
+            return out
+        return super()._s_Return(s, states)
+
     def on_return(self, node, st):
-        if isinstance(node.value, ast.Name) and fget(st, ('src', node.value.id)):
-            self.uses.append((node, node.value.id, st))
+        v = node.value
+        if isinstance(v, ast.Name) and fget(st, ('src', v.id)):
+            self.uses.append((node, fget(st, ('src', v.id)), st))
+        elif isinstance(v, ast.Call) and self.prog.callee(v, self.f) == DB_NEXT:
+            self.uses.append((node, 'fresh', st))
         return super().on_return(node, st)
 
 
@@ -2540,8 +2871,9 @@ def _rule6(model, rep):
             uses = [(n, v, st) for n, v, st in fl.uses if not (isinstance(n, ast.Call) and (prog.callee(n, f) or '').startswith(f.module.name + '.log.'))]
             rets = [(n, v, st) for n, v, st in uses if isinstance(n, ast.Return)] or uses
             bad = []
-            for n, v, st in rets:
-                wn, src = fget(st, 'wasnone'), fget(st, ('src', v))
+            for n, src, st in rets:
+                v = src
+                wn = fget(st, 'wasnone')
                 if wn is None or (wn is True and src != 'fresh') or (wn is False and src != 'stored'):
                     bad.append((n, v, wn, src))
             r.check(
@@ -2666,6 +2998,56 @@ _REG_BODY = (  # shape after pending fix C11-1
     "                'Registered a worker for its %d incarnation.', msg.incarnation\n"
     "            )\n"
     "            pass"
+)
+
+_CHAIN = (
+    "if fn == dawgie.Factories.analysis.name:\n"
+    "                _put(job=j, runid=runid, target=None, where=where)\n"
+    "            elif fn == dawgie.Factories.task.name:\n"
+    "                for t in sorted(list(j.get('do'))):\n"
+    "                    _put(job=j, runid=runid, target=t, where=where)\n"
+    "                    pass\n"
+    "            elif fn == dawgie.Factories.regress.name:\n"
+    "                for t in sorted(list(j.get('do'))):\n"
+    "                    _put(job=j, runid=0, target=t, where=where)\n"
+    "                    pass\n"
+    "                pass\n"
+    "            else:\n"
+    "                log.error('Unknown factory name: %s', str(fn))"
+)
+_CHAIN_HELPER = (
+    "def _enqueue(job, kind, rid, dist):\n"
+    "                if kind == dawgie.Factories.analysis.name:\n"
+    "                    _put(job=job, runid=rid, target=None, where=dist)\n"
+    "                elif kind == dawgie.Factories.task.name:\n"
+    "                    for t in sorted(list(job.get('do'))):\n"
+    "                        _put(job=job, runid=rid, target=t, where=dist)\n"
+    "                elif kind == dawgie.Factories.regress.name:\n"
+    "                    for t in sorted(list(job.get('do'))):\n"
+    "                        _put(job=job, runid=0, target=t, where=dist)\n"
+    "                else:\n"
+    "                    log.error('Unknown factory name: %s', str(kind))\n"
+)
+_POLL_BLOCK = (
+    _POLL + "\n                dawgie.pl.message.send(self._abort, self)\n"
+    "                # long msg more readable so pylint: disable=logging-not-lazy\n"
+    "                log.warning(\n"
+    "                    'Worker and pipeline revisions are not the same. '\n"
+    "                    + 'Sever version %s and worker version %s.',\n"
+    "                    str(msg.revision),\n"
+    "                    str(dawgie.context.git_rev),\n"
+    "                )\n"
+    "            else:\n"
+    "                dawgie.pl.message.send(self.__proceed, self)"
+)
+_RERUN_TAIL = (
+    "if runid is None:\n        runid = dawgie.db.next()\n        log.critical(\n"
+    "            'New run ID (%d) for algorithm %s trigger by the event: %s',\n            runid,\n            job.tag,\n"
+    "            job.get('event', 'Not Specified'),\n        )\n        pass\n    return runid"
+)
+_NOTIFY_IF = (
+    'if not keep:\n            dawgie.pl.message.send(self._abort, self)\n            self.transport.loseConnection()\n'
+    '        else:\n            dawgie.pl.message.send(self.__wait, self)'
 )
 
 VARIANTS = [
@@ -2815,6 +3197,55 @@ VARIANTS = [
     V('dispatch archives before asking for the next batch', 'N', _F, 'dispatch', '_jobs.extend(dawgie.pl.schedule.next_job_batch())', "log.debug('batch')\n    _jobs.extend(dawgie.pl.schedule.next_job_batch())", None),
     V('extra guard on the hand-over', 'N', _F, 'dispatch', _HO, 'if ' + _ACT + ':\n            ' + _HO, None),
     V('reload notifies through a local alias of the farm', 'N', _ST, 'FSM.load', 'dawgie.pl.farm.notify_all()\n            dawgie.pl.farm.clear()', "log.info('telling hands to leave')\n            dawgie.pl.farm.notify_all()\n            dawgie.pl.farm.clear()", None),
+    V('kind dispatch moved into a helper', 'N', _F, 'dispatch', _CHAIN, _CHAIN_HELPER + '\n            _enqueue(j, fn, runid, where)', None),
+    V('kind dispatch in a helper that gets the factory name of another job', 'B', _F, 'dispatch', _CHAIN,
+      _CHAIN_HELPER + "\n            _enqueue(j, _jobs[0].get('factory').__name__, runid, where)", 'R-C11-5'),
+    V('kind dispatch in a helper called with run id 0', 'B', _F, 'dispatch', _CHAIN, _CHAIN_HELPER + '\n            _enqueue(j, fn, 0, where)', 'R-C11-5'),
+    V('kind dispatch in a helper called with the run id of another job', 'B', _F, 'dispatch', _CHAIN,
+      _CHAIN_HELPER + '\n            _enqueue(j, fn, rerunid(_jobs[0]), where)', 'R-C11-5'),
+    V('factory name through tuple unpacking', 'N', _F, 'dispatch', "fm = dawgie.util.task_module(j.get('factory'))\n            fn = j.get('factory').__name__",
+      "fm, fn = dawgie.util.task_module(j.get('factory')), j.get('factory').__name__", None),
+    V('factory through a local alias', 'N', _F, 'dispatch', "fn = j.get('factory').__name__", "jfac = j.get('factory')\n            fn = jfac.__name__", None),
+    V('job tag through a local in _put', 'N', _F, '_put',
+      "fac = job.get('factory')\n    msg = dawgie.pl.message.make(\n        ctxt=dawgie.context.dumps(),\n        fac=(dawgie.util.task_module(fac), fac.__name__),\n        jid=job.tag,",
+      "fac = job.get('factory')\n    tag = job.tag\n    msg = dawgie.pl.message.make(\n        ctxt=dawgie.context.dumps(),\n        fac=(dawgie.util.task_module(fac), fac.__name__),\n        jid=tag,", None),
+    V('notify with a conditional expression', 'N', _F, 'Hand.notify', _NOTIFY_IF,
+      'answer = self.__wait if keep else self._abort\n        dawgie.pl.message.send(answer, self)\n        if not keep:\n            self.transport.loseConnection()', None),
+    V('notify with a conditional expression swapped', 'B', _F, 'Hand.notify', _NOTIFY_IF,
+      'answer = self._abort if keep else self.__wait\n        dawgie.pl.message.send(answer, self)\n        if not keep:\n            self.transport.loseConnection()', 'R-C11-3'),
+    V('status poll answer chosen by a conditional expression', 'N', _F, 'Hand._process', _POLL_BLOCK,
+      'stale = msg.revision != dawgie.context.git_rev or not ' + _ACT + '\n            answer = self._abort if stale else self.__proceed\n            dawgie.pl.message.send(answer, self)', None),
+    V('status poll conditional expression swapped', 'B', _F, 'Hand._process', _POLL_BLOCK,
+      'stale = msg.revision != dawgie.context.git_rev or not ' + _ACT + '\n            answer = self.__proceed if stale else self._abort\n            dawgie.pl.message.send(answer, self)', 'R-C11-1'),
+    V('rerunid as a conditional expression', 'N', _F, 'rerunid', _RERUN_TAIL, 'return dawgie.db.next() if runid is None else runid', None),
+    V('rerunid conditional expression inverted', 'B', _F, 'rerunid', _RERUN_TAIL, 'return runid if runid is None else dawgie.db.next()', 'R-C11-6'),
+    V('rerunid with an early return of the stored id', 'N', _F, 'rerunid', "runid = job.get('runid', None)", "stored = job.get('runid', None)\n    if stored is not None:\n        return stored\n    runid = stored", None),
+    V('connectionLost rebuilds the list without the hand', 'N', _F, 'Hand.connectionLost', _CLOST, '_workers[:] = [w for w in _workers if w is not self]', None),
+    V('connectionLost rebuilds the list with the wrong filter', 'B', _F, 'Hand.connectionLost', _CLOST, '_workers[:] = [w for w in _workers if w is self]', 'R-C11-2'),
+    V('notify_all rebuilds in place', 'N', _F, 'notify_all', '_workers.clear()\n    _workers.extend(cclist)', '_workers[:] = cclist', None),
+    V('revision test in a single-expression helper', 'N', _F, None, 'def _reg(self, msg):\n        ' + _GATE,
+      'def _stale(self, msg):\n        return msg.revision != dawgie.context.git_rev\n\n    def _reg(self, msg):\n        if self._stale(msg):', None),
+    V('revision helper compares with equality', 'B', _F, None, 'def _reg(self, msg):\n        ' + _GATE,
+      'def _stale(self, msg):\n        return msg.revision == dawgie.context.git_rev\n\n    def _reg(self, msg):\n        if self._stale(msg):', 'R-C11-1'),
+    V('hand-over through a local alias of the idle list', 'N', _F, 'dispatch', _LOOP + '\n        ' + _HO,
+      'idle = _workers\n    for dummy in range(min(len(_cluster), len(idle))):\n        idle.pop(0).do(_cluster.pop(0))', None),
+    V('alias of the idle list read by index', 'B', _F, 'dispatch', _LOOP + '\n        ' + _HO,
+      'idle = _workers\n    for dummy in range(min(len(_cluster), len(idle))):\n        idle[0].do(_cluster.pop(0))', 'R-C11-2'),
+    V('hand-over loop with an explicit break', 'N', _F, 'dispatch', _LOOP + '\n        ' + _HO,
+      'while True:\n        if not _cluster or not _workers:\n            break\n        ' + _HO, None),
+    V('hand-over loop with a break on the task queue only', 'B', _F, 'dispatch', _LOOP + '\n        ' + _HO,
+      'while True:\n        if not _cluster:\n            break\n        ' + _HO, 'R-C11-4'),
+    V('hand-over loop pops twice after one test', 'B', _F, 'dispatch', _LOOP + '\n        ' + _HO,
+      'while True:\n        if not _cluster or not _workers:\n            break\n        _workers.pop(0)\n        ' + _HO, 'R-C11-4'),
+    V('notify_all as an explicit loop', 'N', _F, 'notify_all', 'cclist = list(filter(lambda w: w.notify(keep), _workers))',
+      'cclist = []\n    for w in _workers:\n        if w.notify(keep):\n            cclist.append(w)', None),
+    V('notify_all explicit loop with continue', 'N', _F, 'notify_all', 'cclist = list(filter(lambda w: w.notify(keep), _workers))',
+      'cclist = []\n    for w in _workers:\n        if not w.notify(keep):\n            continue\n        cclist.append(w)', None),
+    V('notify_all explicit loop keeps the dropped hands', 'B', _F, 'notify_all', 'cclist = list(filter(lambda w: w.notify(keep), _workers))',
+      'cclist = []\n    for w in _workers:\n        if not w.notify(keep):\n            cclist.append(w)', 'R-C11-3'),
+    V('notify_all explicit loop keeps every hand', 'B', _F, 'notify_all', 'cclist = list(filter(lambda w: w.notify(keep), _workers))',
+      'cclist = []\n    for w in _workers:\n        w.notify(keep)\n        cclist.append(w)', 'R-C11-3'),
+    V('dispatch tests the activity itself', 'N', _F, 'dispatch', 'if not something_to_do():\n        return', 'if not ' + _ACT + ':\n        return', None),
     V('rerunid negated test', 'N', _F, 'rerunid', 'if runid is None:', 'if not (runid is not None):', None),
     V('rerunid without explicit default', 'N', _F, 'rerunid', "job.get('runid', None)", "job.get('runid')", None),
     V('rerunid with == None', 'N', _F, 'rerunid', 'if runid is None:', 'if runid == None:', None),
